@@ -208,8 +208,10 @@ class Oracle:
         global _VCLS
         import referencing, referencing.jsonschema
         if _VCLS is None: _VCLS = _make_validator_class()
-        if isinstance(doc, dict) and ("$id" in doc or "id" in doc):
-            doc = {k: v for k, v in doc.items() if k not in ("$id", "id")}
+        if isinstance(doc, dict) and ("$id" in doc or "id" in doc or "$schema" in doc):
+            # `$schema` too: jsonschema picks the validator class of a schema that carries one when it descends into it
+            # (through `$ref: "#"` or a pointer to the root), which would silently drop the keyword overrides below
+            doc = {k: v for k, v in doc.items() if k not in ("$id", "id", "$schema")}
         self.doc = doc
         self.fc = make_format_checker(uuid)
         res = referencing.Resource(contents=doc, specification=referencing.jsonschema.DRAFT7)
